@@ -98,6 +98,7 @@ class NFEval:
         self.sums = {}            # atom key -> Sum (for flattening c*(a+b) inside sums)
         self.funcs = {}           # atom key -> (function name, argument normal form) for atoms that can be differentiated
         self.derivs = {}          # atom key -> {variable key: normal form}: declared derivatives of function symbols (ODE right-hand sides)
+        self.split_exp = False         # opt-in: exp of a sum is the product of the exps of its (distributed) monomials
         self.factor_symbolic = False   # opt-in: sum atoms are made with the symbolic powers of their first term factored out
         self.sample = None        # optional {atom key: number}: a point of the domain, used to orient sum atoms
 
@@ -333,8 +334,46 @@ class NFEval:
             return Mono(c2, fs)
         return self.lift2(f, a, Mono(Fraction(1)))
 
+    def distribute(self, x, depth=0):
+        """Products distributed over sum atoms that occur with exponent exactly 1 (recursively): a Sum of monomials."""
+        if depth > 12 or x is NAN or isinstance(x, (PW, Struct)):
+            return x
+        if isinstance(x, Sum):
+            out = None
+            for t_ in x.terms:
+                d = self.distribute(t_, depth + 1)
+                out = d if out is None else self.add(out, d)
+            return out
+        for k, e in x.f.items():
+            if k in self.sums and e == self.one:
+                rest = Mono(x.coef, {kk: ee for kk, ee in x.f.items() if kk != k})
+                out = None
+                for t_ in self.sums[k].terms:
+                    d = self.distribute(self.mul(rest, t_), depth + 1)
+                    out = d if out is None else self.add(out, d)
+                return out
+        return x
+
     def exp_atom(self, x):
         """exp(x) as an atom whose argument is remembered (for differentiation)."""
+        if self.split_exp:
+            # exp(sum_i c_i m_i) = prod_i exp(m_i) ** c_i over the monomials of the fully distributed argument: the
+            # map argument -> atoms is additive, so exp(a) exp(b) and exp(a + b) have one normal form
+            xs = self.distribute(x)
+            terms = xs.terms if isinstance(xs, Sum) else [xs]
+            if len(terms) > 1 or (isinstance(xs, Mono) and xs.coef != 1 and xs.f):
+                out = self.num(1)
+                for t_ in terms:
+                    if not t_.f:
+                        k0 = 'numpy.exp(%s)' % self.num(1).key()
+                        self.funcs[k0] = ('exp', self.num(1))
+                        out = self.mul(out, Mono(Fraction(1), {k0: self.S.F(t_.coef)}))
+                        continue
+                    base = Mono(Fraction(1), t_.f)
+                    k0 = 'numpy.exp(%s)' % base.key()
+                    self.funcs[k0] = ('exp', base)
+                    out = self.mul(out, Mono(Fraction(1), {k0: self.S.F(t_.coef)}))
+                return out
         # exp(c * X) = exp(X) ** c with c the rational content (and sign) of the argument, so that exp(X),
         # exp(-2 X) and exp(X / 2) share one atom
         m = self.as_mono(x)
@@ -712,6 +751,15 @@ class NFEval:
             x = self.nf(args[0])
             if isinstance(x, Mono) and x.coef == 1 and not x.f:
                 return self.num(0)
+        if name in ('numpy.sin', 'math.sin', 'numpy.sinh', 'math.sinh', 'numpy.tan', 'math.tan', 'numpy.arctan', 'math.atan',
+                    'numpy.arcsin', 'math.asin') and len(args) == 1:
+            x = self.nf(args[0])
+            if isinstance(x, Mono) and x.coef == 0:
+                return self.num(0)
+        if name in ('numpy.cos', 'math.cos', 'numpy.cosh', 'math.cosh') and len(args) == 1:
+            x = self.nf(args[0])
+            if isinstance(x, Mono) and x.coef == 0:
+                return self.num(1)
         if name in ('numpy.exp', 'math.exp') and len(args) == 1:
             x = self.nf(args[0])
             if isinstance(x, Mono) and x.coef == 0:
